@@ -275,7 +275,7 @@ theorem decideCast_sound (i : Nat) (act : Action) (vo : V)
         split at h
         · simp only [pure, Except.pure, Except.ok.injEq, Option.some.injEq] at h
           subst h
-          obtain ⟨vo', ea, h1, h2, h3, hout, _⟩ := old_app Sm S bindO envO hO i _ a hn
+          obtain ⟨vo', ea, h1, h2, h3, hout, _, _⟩ := old_app Sm S bindO envO hO i _ a hn
           rw [hv] at h1
           have := Option.some.inj h1
           subst this
